@@ -282,7 +282,19 @@ func buildShape(sh abs.IntMap) *astisub.Subtitles {
 		if sh["rstyle"] == 1 {
 			li.Style = &astisub.Style{ID: "runstyle"}
 		}
-		it.Lines = []astisub.Line{{VoiceName: txt, Items: []astisub.LineItem{li, {Text: txt}}}, {Items: []astisub.LineItem{li}}}
+		second := astisub.LineItem{Text: txt}
+		if r := sh["rinl"]; r >= 2 {
+			// neighbouring runs with related tag stacks (the WebVTT writer shares the common prefix of the stacks)
+			stacks := [][2][]astisub.WebVTTTag{
+				{{{Name: "c", Classes: []string{"loud", "red"}}}, {{Name: "c", Classes: []string{"loud"}}}},
+				{{{Name: "c", Classes: []string{"loud"}}}, {{Name: "c", Classes: []string{"loud", "red"}}}},
+				{{{Name: "c", Classes: []string{"loud"}}, {Name: "b"}}, {{Name: "c", Classes: []string{"loud"}}}},
+				{{{Name: "c"}}, {{Name: "c", Classes: []string{"loud"}}, {Name: "i", Annotation: "x"}}},
+			}[(r-2)%4]
+			li.InlineStyle = &astisub.StyleAttributes{WebVTTTags: stacks[0]}
+			second.InlineStyle = &astisub.StyleAttributes{WebVTTTags: stacks[1]}
+		}
+		it.Lines = []astisub.Line{{VoiceName: txt, Items: []astisub.LineItem{li, second}}, {Items: []astisub.LineItem{li}}}
 	}
 	s.Items = []*astisub.Item{it}
 	return s
